@@ -183,7 +183,7 @@ def run(model, rep, tier):
         okk = all(cfg.edge_dominated(r.id, {(first.id, "f")}) for r in rets) and bool(rets)
     rep.check(okk, "R-18.1", ir.qualname, where(ir, ir.node), "is_response requires QR, same id and same opcode before anything else", "is_response no longer requires (QR set, same id, same opcode)", stmt="is-response-header")
     t = " ".join(src(ir.node).split())
-    rep.check(pat.ends_with(ir.node, "...\nfor __n in self.question:\n    if __n not in other.question:\n        return False\nfor __m in other.question:\n    if __m not in self.question:\n        return False\nreturn True"), "R-18.1", ir.qualname, where(ir, ir.node),
+    rep.check(pat.ends_with(ir.node, "...\nfor __n in self.question:\n    if __n not in other.question:\n        return False\nfor __n in other.question:\n    if __n not in self.question:\n        return False\nreturn True"), "R-18.1", ir.qualname, where(ir, ir.node),
               "question sections must be equal as sets", "question comparison in is_response changed", stmt="is-response-question")
 
     # ---------------------------------------------------------------- R-18.2
